@@ -3,6 +3,7 @@
 //! traces that the Trace*.tla modules validate, or replays TLC-generated behaviours.
 
 mod cfgcmd;
+mod comp;
 mod enc;
 mod fill;
 mod gen;
@@ -95,6 +96,7 @@ fn main() {
         "faulty" => sink::cmd_faulty(&a),
         "fill" => fill::cmd_fill(&a),
         "cfg07" => cfgcmd::cmd_cfg07(&a),
+        "comp" => comp::cmd_comp(&a),
         "cfg19" => cfgcmd::cmd_cfg19(&a),
         other => {
             eprintln!("unknown subcommand {other:?}");
